@@ -2685,7 +2685,9 @@ MODULES = {
                       ("SmtString", "From<u32>", "from"), ("SmtString", "From<char>", "from"), ("SmtString", "From<&str>", "from"),
                       (None, None, "char_is_digit"), (None, None, "vector_lt"), (None, None, "vector_le"),
                       (None, None, "str_lt"), (None, None, "str_le"), (None, None, "str_is_digit"),
-                      (None, None, "str_to_code"), (None, None, "str_from_code"), (None, None, "str_to_int")],
+                      (None, None, "str_to_code"), (None, None, "str_from_code"), (None, None, "str_to_int"),
+                      (None, None, "good_char"), (None, None, "good_string"), ("SmtString", None, "is_good"),
+                      ("SmtString", None, "char")],
     },
     "StrSearchGen": {
         "files": ["smt_strings.rs", "matcher.rs"],
